@@ -3,12 +3,44 @@
 From JV Require Import Lib.Base Gen.C19PathFlags Model.C19PathMode Spec.C19Spec Spec.C19Guard.
 
 (* one row of the product (`if` rather than implb: the VM is strict) *)
-Definition row_ok (fl : mfl) (f : facts) : bool :=
+Definition row_ok_fx (fxs : fixes) (fl : mfl) (f : facts) : bool :=
   if consistent f then
-    let o := path_check_fl fl f in
-    outcome_eqb o (defect_outcome fl f)
-    && (if guard fl f then outcome_eqb o (spec_fl fl f) else negb (outcome_eqb o (spec_fl fl f)))
+    let o := path_check_fl_fx fxs fl f in
+    outcome_eqb o (defect_outcome_fx fxs fl f)
+    && (if guard_fx fxs fl f then outcome_eqb o (spec_fl fl f) else negb (outcome_eqb o (spec_fl fl f)))
   else true.
+
+(* every combination of landed repairs (fx_lf does not concern this half) *)
+Definition fixes_of_vec (v : list bool) : fixes :=
+  match v with
+  | [a; b; c; d] => {| fx_F := a; fx_fifo := b; fx_cc := c; fx_lf := d |}
+  | _ => no_fixes
+  end.
+Definition vec_of_fixes (x : fixes) : list bool := [fx_F x; fx_fifo x; fx_cc x; fx_lf x].
+Definition mode_fixes : list fixes :=
+  [ {| fx_F := false; fx_fifo := false; fx_cc := false; fx_lf := false |};
+    {| fx_F := true;  fx_fifo := false; fx_cc := false; fx_lf := false |};
+    {| fx_F := false; fx_fifo := true;  fx_cc := false; fx_lf := false |};
+    {| fx_F := true;  fx_fifo := true;  fx_cc := false; fx_lf := false |};
+    {| fx_F := false; fx_fifo := false; fx_cc := true;  fx_lf := false |};
+    {| fx_F := true;  fx_fifo := false; fx_cc := true;  fx_lf := false |};
+    {| fx_F := false; fx_fifo := true;  fx_cc := true;  fx_lf := false |};
+    {| fx_F := true;  fx_fifo := true;  fx_cc := true;  fx_lf := false |} ].
+
+(* the same row with sat evaluated once and shared by all combinations of repairs *)
+Definition row_s (s : bool) (fxs : fixes) (fl : mfl) (f : facts) : bool :=
+  let o := path_check_fl_fx fxs fl f in
+  let k := finding_class_s s fxs fl f in
+  let sp := if s then Accept else PathErr in
+  outcome_eqb o (defect_outcome_k k s fxs fl)
+  && (if N.eqb k 0 then outcome_eqb o sp else negb (outcome_eqb o sp)).
+
+Definition row_ok (fl : mfl) (f : facts) : bool :=
+  if consistent f then let s := sat fl f in forallb (fun x => row_s s x fl f) mode_fixes else true.
+
+Lemma row_ok_fx_row_s fxs fl f :
+  row_ok_fx fxs fl f = if consistent f then row_s (sat fl f) fxs fl f else true.
+Proof. reflexivity. Qed.
 
 (* ---- exhaustive enumeration: records <-> bit vectors ------------------------------------------ *)
 Fixpoint all_vec (n : nat) : list (list bool) :=
@@ -89,6 +121,20 @@ Proof.
   specialize (T _ I2). unfold facts_row in T. rewrite facts_vec_roundtrip in T. exact T.
 Qed.
 
+Lemma row_ok_fx_lf_irrelevant a b c d fl f :
+  row_ok_fx {| fx_F := a; fx_fifo := b; fx_cc := c; fx_lf := d |} fl f
+  = row_ok_fx {| fx_F := a; fx_fifo := b; fx_cc := c; fx_lf := false |} fl f.
+Proof. reflexivity. Qed.
+
+Lemma rows_ok_fx : forall fxs fl f, valid_fl fl = true -> local_fl fl = true -> row_ok_fx fxs fl f = true.
+Proof.
+  intros fxs fl f Hv Hl. pose proof (rows_ok fl f Hv Hl) as R.
+  destruct fxs as [a b c d]. rewrite row_ok_fx_lf_irrelevant, row_ok_fx_row_s.
+  unfold row_ok in R. destruct (consistent f); [|reflexivity].
+  cbv zeta in R. rewrite forallb_forall in R. apply R.
+  destruct a, b, c; simpl; tauto.
+Qed.
+
 (* ---- from mode strings to flag records -------------------------------------------------------- *)
 Lemma fl_has_flags_of : forall c m, In c c19_alphabet -> fl_has c (flags_of m) = has c m.
 Proof.
@@ -141,43 +187,72 @@ Qed.
 Lemma outcome_eqb_eq a b : outcome_eqb a b = true <-> a = b.
 Proof. destruct a, b; simpl; split; intro H; try reflexivity; try discriminate. Qed.
 
-Lemma mode_exact_fl : forall fl f,
-  valid_fl fl = true -> local_fl fl = true -> consistent f = true -> guard fl f = true ->
-  (path_check_fl fl f = Accept <-> sat fl f = true) /\
-  (path_check_fl fl f <> Accept -> path_check_fl fl f = PathErr).
+Lemma mode_exact_fl_fx : forall fxs fl f,
+  valid_fl fl = true -> local_fl fl = true -> consistent f = true -> guard_fx fxs fl f = true ->
+  (path_check_fl_fx fxs fl f = Accept <-> sat fl f = true) /\
+  (path_check_fl_fx fxs fl f <> Accept -> path_check_fl_fx fxs fl f = PathErr).
 Proof.
-  intros fl f Hv Hl Hc Hg. pose proof (rows_ok fl f Hv Hl) as R.
-  unfold row_ok in R. rewrite Hc, Hg in R. cbv zeta in R.
+  intros fxs fl f Hv Hl Hc Hg. pose proof (rows_ok_fx fxs fl f Hv Hl) as R.
+  unfold row_ok_fx in R. rewrite Hc, Hg in R. cbv zeta in R.
   apply andb_true_iff in R. destruct R as [_ R].
   apply outcome_eqb_eq in R. unfold spec_fl in R. rewrite R.
   destruct (sat fl f); split; try split; intros; try reflexivity; try discriminate; congruence.
 Qed.
+
+Lemma mode_exact_str_fx : forall fxs m f,
+  check_mode m = true -> has 117 m = false -> has 115 m = false ->
+  consistent f = true -> guard_fx fxs (flags_of m) f = true ->
+  (path_check_fx fxs m false f = Accept <-> sat (flags_of m) f = true) /\
+  (path_check_fx fxs m false f <> Accept -> path_check_fx fxs m false f = PathErr).
+Proof.
+  intros fxs m f Hm Hu Hs Hc Hg. unfold path_check_fx. rewrite Hm. simpl.
+  apply mode_exact_fl_fx; auto.
+  - apply check_mode_valid_fl; exact Hm.
+  - unfold local_fl. simpl. rewrite Hu, Hs. reflexivity.
+Qed.
+
+Lemma mode_exact_fl : forall fl f,
+  valid_fl fl = true -> local_fl fl = true -> consistent f = true -> guard fl f = true ->
+  (path_check_fl fl f = Accept <-> sat fl f = true) /\
+  (path_check_fl fl f <> Accept -> path_check_fl fl f = PathErr).
+Proof. exact (mode_exact_fl_fx no_fixes). Qed.
 
 Lemma mode_exact_str : forall m f,
   check_mode m = true -> has 117 m = false -> has 115 m = false ->
   consistent f = true -> guard (flags_of m) f = true ->
   (path_check m false f = Accept <-> sat (flags_of m) f = true) /\
   (path_check m false f <> Accept -> path_check m false f = PathErr).
-Proof.
-  intros m f Hm Hu Hs Hc Hg. unfold path_check. rewrite Hm. simpl.
-  apply mode_exact_fl; auto.
-  - apply check_mode_valid_fl; exact Hm.
-  - unfold local_fl. simpl. rewrite Hu, Hs. reflexivity.
-Qed.
+Proof. exact (mode_exact_str_fx no_fixes). Qed.
+
+(* with the three repairs the guard is trivially true: the full statement *)
+Lemma guard_all_fixes : forall fl f, guard_fx all_fixes fl f = true.
+Proof. reflexivity. Qed.
+
+Lemma mode_exact_str_repaired : forall m f,
+  check_mode m = true -> has 117 m = false -> has 115 m = false -> consistent f = true ->
+  (path_check_fx all_fixes m false f = Accept <-> sat (flags_of m) f = true) /\
+  (path_check_fx all_fixes m false f <> Accept -> path_check_fx all_fixes m false f = PathErr).
+Proof. intros m f Hm Hu Hs Hc. apply mode_exact_str_fx; auto. Qed.
 
 (* outside the guard the code does exactly the listed wrong thing, and it is wrong *)
-Lemma findings_exact : forall fl f,
+Lemma findings_exact_fx : forall fxs fl f,
   valid_fl fl = true -> local_fl fl = true -> consistent f = true ->
-  path_check_fl fl f = defect_outcome fl f /\
-  (guard fl f = false -> path_check_fl fl f <> spec_fl fl f).
+  path_check_fl_fx fxs fl f = defect_outcome_fx fxs fl f /\
+  (guard_fx fxs fl f = false -> path_check_fl_fx fxs fl f <> spec_fl fl f).
 Proof.
-  intros fl f Hv Hl Hc. pose proof (rows_ok fl f Hv Hl) as R.
-  unfold row_ok in R. rewrite Hc in R. cbv zeta in R.
+  intros fxs fl f Hv Hl Hc. pose proof (rows_ok_fx fxs fl f Hv Hl) as R.
+  unfold row_ok_fx in R. rewrite Hc in R. cbv zeta in R.
   apply andb_true_iff in R. destruct R as [R1 R3].
   apply outcome_eqb_eq in R1. split; [exact R1|].
   intros Hg. rewrite Hg in R3. intro E.
   apply outcome_eqb_eq in E. rewrite E in R3. discriminate.
 Qed.
+
+Lemma findings_exact : forall fl f,
+  valid_fl fl = true -> local_fl fl = true -> consistent f = true ->
+  path_check_fl fl f = defect_outcome fl f /\
+  (guard fl f = false -> path_check_fl fl f <> spec_fl fl f).
+Proof. exact (findings_exact_fx no_fixes). Qed.
 
 (* the mode language the code accepts is the documented one *)
 Lemma check_mode_is_documented : forall m, check_mode m = spec_check_mode m.
